@@ -66,3 +66,15 @@ VARIANTS += [
     dict(name="c01-silent-subscription-key-decoded-signed", property="C01", expect="silent", file=M, count=2,
          old="self.subscriptions[sub.msg_type].add(src_module)", new="self.subscriptions[sub.msg_type if True else int.from_bytes(bytes(msg.data)[:4], \"little\", signed=True)].add(src_module)"),
 ]
+
+_FAN_OLD = '        for module in list(self.logger_modules):\n            if module is exclude:\n                continue\n\n            # Skip loggers removed while handling a failure earlier in this loop\n            if module.conn not in self.modules:\n                continue\n\n            if module.conn not in self.wlist:\n                # Block until logger is ready\n                select.select([], [module.conn], [], None)\n            try:\n                module.send_message(header, payload)\n                module.drops = 0\n            except ConnectionError as err:\n                self.remove_module(module)\n                self.logger.error(f"Connection Error on write to {module!s} - {err!s}")\n                print("x", end="", flush=True)\n                # this could result in infinite recursion,\n                # this is prevented by send_failed_message returning if\n                # failed message type is failed_message.\n                self.send_failed_message(module, header, time.perf_counter())\n\n'
+_FAN_COMP = '        loggers = [m for m in list(self.logger_modules) if m is not exclude]\n        [self._copy_to_logger(module, header, payload) for module in loggers]\n\n    def _copy_to_logger(self, module: Module, header: MessageHeader, payload: Union[bytes, MessageData]):\n        # Skip loggers removed while handling a failure earlier in the fan-out\n        if module.conn not in self.modules:\n            return\n\n        if module.conn not in self.wlist:\n            # Block until logger is ready\n            select.select([], [module.conn], [], None)\n        try:\n            module.send_message(header, payload)\n            module.drops = 0\n        except ConnectionError as err:\n            self.remove_module(module)\n            self.logger.error(f"Connection Error on write to {module!s} - {err!s}")\n            print("x", end="", flush=True)\n            self.send_failed_message(module, header, time.perf_counter())\n\n'
+_FAN_ALL = '        loggers = [m for m in list(self.logger_modules) if m is not exclude]\n        all(self._copy_to_logger(module, header, payload) for module in loggers)\n\n    def _copy_to_logger(self, module: Module, header: MessageHeader, payload: Union[bytes, MessageData]):\n        # Skip loggers removed while handling a failure earlier in the fan-out\n        if module.conn not in self.modules:\n            return\n\n        if module.conn not in self.wlist:\n            # Block until logger is ready\n            select.select([], [module.conn], [], None)\n        try:\n            module.send_message(header, payload)\n            module.drops = 0\n        except ConnectionError as err:\n            self.remove_module(module)\n            self.logger.error(f"Connection Error on write to {module!s} - {err!s}")\n            print("x", end="", flush=True)\n            self.send_failed_message(module, header, time.perf_counter())\n\n'
+
+VARIANTS += [
+    # a comprehension run for its effects is the loop it abbreviates; all() over a sending generator is not
+    dict(name="c14-silent-logger-fan-out-as-comprehension", property="C14", expect="silent", file=M, old=_FAN_OLD, new=_FAN_COMP),
+    dict(name="c19-silent-logger-fan-out-as-comprehension", property="C19", expect="silent", file=M, old=_FAN_OLD, new=_FAN_COMP),
+    dict(name="c07-silent-logger-fan-out-as-comprehension", property="C07", expect="silent", file=M, old=_FAN_OLD, new=_FAN_COMP),
+    dict(name="c19-logger-fan-out-driven-by-all", property="C19", rule="C19-F", file=M, old=_FAN_OLD, new=_FAN_ALL),
+]
